@@ -47,7 +47,7 @@ fn spellings() -> Vec<Spelling> {
         "DIM", "LET", "PRINT", "INPUT", "GOTO", "GOSUB", "RETURN", "IF", "THEN", "ELSE", "AND", "OR",
         "NOT", "END", "STOP", "FOR", "TO", "STEP", "NEXT", "READ", "RESTORE", "DEF", "?", ":", ";",
         ",", "(", ")", "+", "-", "*", "/", "^", "=", "<>", "<=", ">=", "<", ">", "X", "X1", "A$",
-        "SCORE", "TOTAL", "FNA", "7", "12", "1.5", ".5", "007",
+        "SCORE", "TOTAL", "FNA", "7", "12", "1.5", ".5", "007", "E3", "1E3",
     ];
     let mut v: Vec<Spelling> = plain.iter().map(|s| sp(s)).collect();
     v.push(sp("[\"a B\"]"));
